@@ -8,6 +8,7 @@ package trzsz
 import (
 	"bytes"
 	"fmt"
+	"io"
 	"math/rand"
 	"runtime"
 	"strings"
@@ -58,6 +59,55 @@ func c03Parked() bool {
 	return false
 }
 
+// c03PumpReader hands the chunks to the input pump, one per Read; each is recorded as a push when it is
+// handed over (the reads of the run start only after the pump has ended).
+type c03PumpReader struct {
+	mu     sync.Mutex
+	chunks [][]byte
+	i      int
+	attach bool
+	done   bool
+	tr     *vTrace
+}
+
+func (r *c03PumpReader) Read(p []byte) (int, error) {
+	r.mu.Lock()
+	defer r.mu.Unlock()
+	if r.i >= len(r.chunks) {
+		r.done = true
+		return 0, io.EOF
+	}
+	c := r.chunks[r.i]
+	r.i++
+	n := copy(p, c)
+	r.tr.Emit(map[string]any{"e": "push", "c": vInts(c[:n])}, nil)
+	if r.attach && r.i == len(r.chunks) {
+		r.done = true
+		return n, io.EOF
+	}
+	return n, nil
+}
+
+func (r *c03PumpReader) ended() bool {
+	r.mu.Lock()
+	defer r.mu.Unlock()
+	return r.done
+}
+
+// c03PumpAlive: the goroutine of wrapTransferInput is still running.
+func c03PumpAlive() bool {
+	buf := make([]byte, 1<<16)
+	for {
+		n := runtime.Stack(buf, true)
+		if n < len(buf) {
+			buf = buf[:n]
+			break
+		}
+		buf = make([]byte, len(buf)*2)
+	}
+	return bytes.Contains(buf, []byte("trzsz.wrapTransferInput"))
+}
+
 type c03Run struct {
 	tr       *vTrace
 	b        *trzszBuffer
@@ -103,8 +153,16 @@ func (r *c03Run) waitSettled() (parked bool, hang bool) {
 // c03Execute runs one schedule on a fresh trzszBuffer and records it.
 // mode 0: all chunks are pushed before the reads start; mode 1: reads start first, the pusher
 // runs concurrently with random yields; mode 2: timed scenario (fire / newtimeout at parked points).
+// mode 3 / 4: the chunks come through the input pump (wrapTransferInput) from a reader that returns one
+// chunk per Read and reports the end of the stream with a separate empty read (3) or together with
+// the last bytes (4: a Read may return n > 0 and an error); the reads start when the pump has ended.
 func c03Execute(tr *vTrace, chunks [][]byte, ops []c03Op, mode int, rng *rand.Rand) (hang bool) {
 	b := newTrzszBuffer()
+	var pumpT *trzszTransfer
+	if mode >= 3 {
+		pumpT = newTransfer(io.Discard, nil, false, nil)
+		b = pumpT.buffer
+	}
 	r := &c03Run{tr: tr, b: b, done: make(chan struct{})}
 	tr.Emit(map[string]any{"e": "reset"}, nil)
 	push := func(c []byte) {
@@ -148,7 +206,19 @@ func c03Execute(tr *vTrace, chunks [][]byte, ops []c03Op, mode int, rng *rand.Ra
 			}
 		}
 	}
-	if mode == 0 {
+	if mode >= 3 {
+		pr := &c03PumpReader{chunks: chunks, attach: mode == 4, tr: tr}
+		wrapTransferInput(pumpT, pr, false)
+		deadline := time.Now().Add(10 * time.Second)
+		for !pr.ended() || c03PumpAlive() {
+			if time.Now().After(deadline) {
+				tr.Emit(map[string]any{"e": "hang"}, nil)
+				return true
+			}
+			time.Sleep(20 * time.Microsecond)
+		}
+		go reader()
+	} else if mode == 0 {
 		for _, c := range chunks {
 			push(c)
 		}
@@ -259,7 +329,7 @@ func c03TV(d *vCtx) error {
 		traces[i] = t
 	}
 	rng := d.rng(3)
-	runs, hangs := 0, 0
+	runs, hangs, pumpRuns := 0, 0, 0
 	// exhaustive part: every stream <= maxLen over the alphabet, every segmentation, the op sequences above
 	var streams [][]byte
 	var gen func(cur []byte)
@@ -285,8 +355,18 @@ func c03TV(d *vCtx) error {
 				}
 				runs++
 			}
+			// the same stream through the input pump, the end of the stream reported apart from / with the last bytes
+			for pm := 3; pm <= 4; pm++ {
+				ops := opSeqs[(runs+pm)%len(opSeqs)]
+				if c03Execute(traces[runs%shards], chunks, ops, pm, rng) {
+					hangs++
+				}
+				runs++
+				pumpRuns++
+			}
 		}
 	}
+	d.set("pump_runs", pumpRuns)
 	d.set("exhaustive_runs", runs)
 	d.set("streams", len(streams))
 	// random part: long streams over the whole byte range biased towards the bytes that matter
@@ -335,7 +415,7 @@ func c03TV(d *vCtx) error {
 				ops[j] = c03Op{"bin", rng.Intn(40), true}
 			}
 		}
-		if c03Execute(traces[runs%shards], chunks, ops, i%3, rng) {
+		if c03Execute(traces[runs%shards], chunks, ops, i%5, rng) {
 			hangs++
 		}
 		runs++
